@@ -8,6 +8,7 @@ import torch
 
 import cirkit.symbolic.functional as SF
 from cirkit.symbolic import parameters as P
+from cirkit.symbolic.initializers import ConstantTensorInitializer
 from cirkit.utils.scope import Scope
 
 import evalc
@@ -36,6 +37,15 @@ def one_case(rep, cs, seed, i):
     ys = gen.sample_inputs(rng, g.doms, scope, 3, exhaustive_limit=0, nonneg=(sem == "lse-sum"))
     ops = pipeline_operands(sc)
     w = max(evalc.width_of(c) for c in ops)
+    # some tensors are frozen (not learnable): they are part of the saved state all the same
+    frozen = prob_leaves(ops)
+    free = [p_ for p_ in tensor_leaves(ops) if id(p_) not in frozen and isinstance(p_.initializer, ConstantTensorInitializer)]
+    nfrozen = 0
+    for p_ in free:
+        if rng.random() < 0.3:
+            p_.learnable = False
+            nfrozen += 1
+    rep.count(f"non-learnable-tensors:{min(nfrozen, 3)}")
     try:
         ctxA = evalc.make_ctx(sem, fold, opt)
         ccA = ctxA.compile(sc)
@@ -43,7 +53,6 @@ def one_case(rep, cs, seed, i):
         # train-like perturbation of every learnable tensor of instance A
         stateA = ctxA._compiler.state
         keep = set()
-        frozen = prob_leaves(ops)
         for p_ in tensor_leaves(ops):
             if id(p_) in frozen and stateA.has_compiled_parameter(p_):
                 keep.add(stateA.retrieve_compiled_parameter(p_)[0]._ptensor.data_ptr())
@@ -74,6 +83,10 @@ def one_case(rep, cs, seed, i):
         buf.seek(0)
         sd2 = torch.load(buf)
         # a freshly compiled instance (fresh initial values = the symbolic initialisers, different from A's perturbed ones)
+        # "whatever its fresh initial values": the initialisers of the symbolic tensors now produce other values
+        for p_ in free:
+            v0 = np.asarray(p_.initializer.value)
+            p_.initializer = ConstantTensorInitializer(v0 + np.asarray(gen.dy_array(rng, v0.shape, 1, 3, 16)).astype(v0.dtype))
         ctxB = evalc.make_ctx(sem, fold, opt)
         ccB = ctxB.compile(sc)
         outB0 = evalc.evaluate(ccB, sc, ys, sem, width=w)
